@@ -826,7 +826,7 @@ def run(ctx):
     if not ok:
         return
     rnd = random.Random(ctx.seed)
-    n_hist = 60 if ctx.tier == "quick" else 700
+    n_hist = 60 if ctx.tier == "quick" else 500
     max_events = 22 if ctx.tier == "quick" else 40
 
     cases, metas = [], []
